@@ -80,6 +80,7 @@ impl Ctx {
         let violations = std::sync::Arc::new(Mutex::new(vec![]));
         let violation_count = std::sync::Arc::new(AtomicU64::new(0));
         let finished = std::sync::Arc::new(AtomicBool::new(false));
+        *CURRENT.lock().unwrap() = Some((id.to_string(), tier, seed, violations.clone(), violation_count.clone()));
         {
             // Run watchdog (3x the budget + 60 s). The code under test cannot be interrupted inside a
             // worker thread, so a run whose threads are stuck in it (e.g. a compilation that blows up
@@ -260,6 +261,33 @@ impl Ctx {
     }
 }
 
+type Current = (String, Tier, u64, std::sync::Arc<Mutex<Vec<Value>>>, std::sync::Arc<AtomicU64>);
+static CURRENT: Mutex<Option<Current>> = Mutex::new(None);
+
+/// Ends the process when the run cannot be completed (a worker thread died outside of a guarded
+/// call, which on a changed tree can be the code under test panicking where the harness did not
+/// expect it): violations observed so far are reported (exit 1), otherwise the run is inconclusive.
+pub fn emergency_exit(reason: &str) -> ! {
+    let cur = CURRENT.lock().ok().and_then(|c| c.clone());
+    match cur {
+        Some((id, tier, seed, violations, count)) => {
+            println!("INCONCLUSIVE property={id} {reason} (coverage counters of this run are lost)");
+            let nviol = count.load(Ordering::SeqCst);
+            if nviol > 0 {
+                let paths = write_replays(&id, tier, seed, &violations.lock().unwrap());
+                for (p, what) in &paths {
+                    println!("VIOLATION property={} replay={}   # {}", id, p.display(), what);
+                }
+                println!("RESULT property={} tier={} seed={} verdict=violated violations={} (run ended early)", id, tier.name(), seed, nviol);
+                std::process::exit(1);
+            }
+            println!("RESULT property={} tier={} seed={} verdict=inconclusive", id, tier.name(), seed);
+        }
+        None => println!("INCONCLUSIVE {reason}"),
+    }
+    std::process::exit(2);
+}
+
 fn write_replays(id: &str, tier: Tier, seed: u64, violations: &[Value]) -> Vec<(PathBuf, String)> {
     let mut replay_paths = vec![];
     let dir = verif_dir().join("replays").join(id);
@@ -423,10 +451,7 @@ pub fn par<T: Send>(n: usize, f: impl Fn(usize) -> T + Sync) -> Vec<T> {
         hs.into_iter()
             .map(|h| match h.join() {
                 Ok(v) => v,
-                Err(_) => {
-                    println!("INCONCLUSIVE harness worker thread panicked (harness bug)");
-                    std::process::exit(2);
-                }
+                Err(_) => emergency_exit("a harness worker thread panicked outside of a guarded call"),
             })
             .collect()
     })
